@@ -12,9 +12,9 @@
 
 using wl::Cell;
 
-enum { OP_DETACH = 0, OP_ASYNC_RET, OP_ASYNC_VOID, OP_ASYNC_THROW, OP_READ, OP_LOAD };
+enum { OP_DETACH = 0, OP_ASYNC_RET, OP_ASYNC_VOID, OP_ASYNC_THROW, OP_READ, OP_LOAD, OP_DETACH_THROW };
 static const char* const OPN[] = {"modify_detach", "modify_async_ret", "modify_async_void",
-                                  "modify_async_throw", "read", "load"};
+                                  "modify_async_throw", "read", "load", "modify_detach_throw"};
 
 namespace {
 struct Sub {
@@ -123,6 +123,25 @@ struct WL {
                 dg->modify_detach(Fn{id, op.a});
                 end_submit(id);
                 break;
+            case OP_DETACH_THROW: {
+                // direct path: the exception reaches the caller; queued path: it is
+                // captured by the (discarded) task.  Either way no lock may be left
+                // behind and later tasks must still run.
+                begin_submit(id, op.code);
+                int held0 = gsim::held_exclusive() + gsim::held_shared();
+                try {
+                    dg->modify_detach(FnThrow{id});
+                    gsim::probe("deferred.throw_captured_or_queued");
+                }
+                catch (const gsim::injected&) {
+                    gsim::probe("deferred.throw_propagated");
+                }
+                if (gsim::held_exclusive() + gsim::held_shared() != held0)
+                    gsim::fail("lock_leaked_on_throw", "modify_detach with a throwing function "
+                               "left a lock held");
+                end_submit(id);
+                break;
+            }
             case OP_ASYNC_RET: {
                 begin_submit(id, op.code);
                 auto f = dg->modify_async(FnRet{id, op.a});
@@ -227,8 +246,10 @@ struct WL {
                     bool submit = role == 0 || (role == 2 && gsim::gen_int(2));
                     if (submit) {
                         static const int pool[] = {OP_DETACH, OP_DETACH, OP_DETACH, OP_ASYNC_RET,
-                                                   OP_ASYNC_VOID, OP_ASYNC_THROW};
-                        gsim::prog_add(t, {pool[gsim::gen_int(6)], gsim::gen_int(3) == 0 ? 1 : 0, 0, 0});
+                                                   OP_ASYNC_VOID, OP_ASYNC_THROW, OP_DETACH_THROW,
+                                                   OP_DETACH_THROW};
+                        bool thr = !strcmp(gsim::param("mode", "std"), "throw");
+                        gsim::prog_add(t, {pool[gsim::gen_int(thr ? 8 : 6)], gsim::gen_int(3) == 0 ? 1 : 0, 0, 0});
                     } else {
                         gsim::prog_add(t, {gsim::gen_int(6) == 0 ? OP_LOAD : OP_READ,
                                            gsim::gen_int(4), gsim::gen_int(4), 0});
